@@ -285,7 +285,7 @@ def shapes(ctx, obs, rule='SHAPE'):
     q = F + 'fit_interpolate'
     f = prog.func(q)
     stores = [n for n in ast.walk(f.node) if isinstance(n, ast.Assign) and isinstance(n.targets[0], ast.Subscript)
-              and isinstance(n.targets[0].value, ast.Name) and n.targets[0].value.id == 'theta']
+              and isinstance(n.targets[0].value, ast.Name) and isinstance(n.targets[0].slice, (ast.Name, ast.BinOp))]
     pairs = []
     nested = [n for n in ast.walk(f.node) if isinstance(n, ast.FunctionDef) and n is not f.node]
 
@@ -296,7 +296,7 @@ def shapes(ctx, obs, rule='SHAPE'):
         return 0
     for a in stores:
         for b in stores:
-            if scope(a) != scope(b):
+            if scope(a) != scope(b) or a.targets[0].value.id != b.targets[0].value.id:
                 continue
             ia, ib = a.targets[0].slice, b.targets[0].slice
             if isinstance(ib, ast.BinOp) and isinstance(ib.op, ast.Add) and ast.dump(ib.left) == ast.dump(ia) \
@@ -313,15 +313,26 @@ def shapes(ctx, obs, rule='SHAPE'):
         ok = isinstance(bd, ast.Tuple) and [getattr(x, 'value', None) for x in bd.elts] == [0, 1]
         obs.check(ok, rule, q, 'the mixture weight is searched in [0, 1]', f'bounds {norm(bd) if bd is not None else None}', '',
                   where(prog, f, c))
-    # selection: argmax over evaluations (similarity), argmin over losses
-    for fn, want, var in (('fit_select', 'argmax', 'evaluations'), ('fit_optimize', 'argmin', 'losses'),
-                          ('fit_optimize_positive', 'argmin', 'losses'), ('fit_interpolate', 'argmin', 'losses')):
+    # selection: argmax over the accumulated similarities, argmin over the accumulated losses
+    for fn, want in (('fit_select', 'argmax'), ('fit_optimize', 'argmin'), ('fit_optimize_positive', 'argmin'),
+                     ('fit_interpolate', 'argmin')):
         qq = F + fn
         ff = prog.func(qq)
         cs = [c for c in ast.walk(ff.node) if isinstance(c, ast.Call) and _leaf(c.func) in ('argmax', 'argmin')]
-        ok = bool(cs) and all(_leaf(c.func) == want and c.args and isinstance(c.args[0], ast.Name) and c.args[0].id == var for c in cs)
-        obs.check(ok, rule, qq, f'the best candidate is {want} over {var}',
-                  f'{[norm(c) for c in cs]}: the selection does not take {want}({var})', '', where(prog, ff, ff.node))
+        if not cs:
+            obs.bad(rule, qq, f'the best candidate is selected by {want}', 'no argmax / argmin call', where(prog, ff, ff.node))
+            continue
+        for c in cs:
+            arg = c.args[0] if c.args else None
+            kind = _accumulator_kind(ff, arg)
+            if kind is None:
+                obs.unk(rule, qq, f'the best candidate is selected by {want} over the accumulated scores',
+                        f'`{norm(c)}`: accumulator not recognised')
+                continue
+            expect = 'argmax' if kind == 'similarity' else 'argmin'
+            obs.check(_leaf(c.func) == expect and expect == want, rule, qq,
+                      f'the best candidate is selected by {want} over the accumulated {kind} values',
+                      f'`{norm(c)}` takes {_leaf(c.func)} over {kind} values: the worst candidate is selected', '', where(prog, ff, c))
     # sign of the loss: negative mean similarity
     q = F + '_loss'
     f = prog.func(q)
@@ -334,6 +345,31 @@ def shapes(ctx, obs, rule='SHAPE'):
         obs.check(neg, rule, q, 'the loss is the negative mean similarity (plus ridge term)',
                   f'`{norm(e)[:90]}` is not -mean(compare(...)): minimising it does not maximise the similarity', '',
                   where(prog, f, n))
+
+
+def _accumulator_kind(ff, arg):
+    """what the list / array `arg` accumulates: 'similarity' (mean of compare) or 'loss' (optimiser .fun / _loss value)"""
+    if not isinstance(arg, ast.Name):
+        return None
+    vals = []
+    for n in ast.walk(ff.node):
+        if isinstance(n, ast.Call) and isinstance(n.func, ast.Attribute) and n.func.attr == 'append' \
+                and isinstance(n.func.value, ast.Name) and n.func.value.id == arg.id and n.args:
+            vals.append(n.args[0])
+        if isinstance(n, ast.Assign) and isinstance(n.targets[0], ast.Subscript) and isinstance(n.targets[0].value, ast.Name) \
+                and n.targets[0].value.id == arg.id:
+            vals.append(n.value)
+        if isinstance(n, ast.Assign) and isinstance(n.targets[0], ast.Name) and n.targets[0].id == arg.id \
+                and isinstance(n.value, (ast.List, ast.ListComp)):
+            vals += list(n.value.elts) if isinstance(n.value, ast.List) else [n.value.elt]
+    kinds = set()
+    for v in vals:
+        t = ast.unparse(v)
+        if 'compare(' in t:
+            kinds.add('similarity')
+        elif '.fun' in t or '_loss' in t or 'loss' in t:
+            kinds.add('loss')
+    return kinds.pop() if len(kinds) == 1 else None
 
 
 def purity(ctx, obs, rule='PURE'):
